@@ -500,6 +500,13 @@ class MPBFixedContext(SizedContext):
             case _:
                 raise RuntimeError(f'unrechable {direction}')
 
+    def _saturated(self, s: bool) -> Float:
+        """The value an overflow with sign `s` saturates to."""
+        if s and not self.neg_maxval.is_negative():
+            # no negative values (unsigned): the closest value is zero
+            return Float(ctx=self)
+        return self.maxval(s)
+
     def _round_at(self, x: RealFloat | Float, n: int | None, exact: bool) -> Float:
         """
         Like `self.round_at()` but only for `RealFloat` or `Float` instances.
@@ -563,9 +570,9 @@ class MPBFixedContext(SizedContext):
                         else:
                             result = Float(x=self.inf_value, ctx=self)
                     else:
-                        result = self.maxval(xr.s)
+                        result = self._saturated(xr.s)
                 case OverflowMode.SATURATE:
-                    return self.maxval(s=xr.s)
+                    result = self._saturated(xr.s)
                 case OverflowMode.WRAP:
                     ord_abs = self._fmt._mp_fmt.to_ordinal(Float(x=xr)) - self._fmt._neg_maxval_ord
                     total_ord = self._fmt._pos_maxval_ord - self._fmt._neg_maxval_ord + 1
